@@ -635,7 +635,11 @@ func (c *Collection) writeWithXattrs(
 				}
 			}
 		}
-		e.xattrs, _ = json.Marshal(xattrs)
+		if len(xattrs) > 0 {
+			e.xattrs, _ = json.Marshal(xattrs)
+		} else {
+			e.xattrs = nil // no xattrs is stored as NULL, not as the JSON text "null" / "{}"
+		}
 
 		if err = checkDocSize(len(e.value) + len(e.xattrs)); err != nil {
 			return nil, err
